@@ -193,6 +193,17 @@ def run_job(job):
         run((b"b", big), (b"b", big, None), (big + b"b", b"", None), "collision: mod-256 length wrap id_s/id_u")
         run((b"b" * 256, b"srv"), (b"", b"srv", None), (b"", b"srv", None), "collision: 256-byte identity vs empty")
         run((b"", b"srv"), (b"b" * 256, b"srv", None), (b"b" * 256, b"srv", None), "collision: 256-byte identity vs empty")
+        # long values that share a long common prefix / suffix (a binding that only covers part of a value collides here)
+        for n in (255, 256, 300, 65534):
+            pa, pb = b"P" * n + b"A", b"P" * n + b"B"
+            sa, sb = b"A" + b"S" * n, b"B" + b"S" * n
+            for va, vb, lab in ((pa, pb, "prefix"), (sa, sb, "suffix")):
+                run((va, b"srv"), (va, b"srv", None), (vb, b"srv", None), "collision: id_u differs only after a %d-byte common %s" % (n, lab))
+                run((va, b"srv"), (vb, b"srv", None), (vb, b"srv", None), "collision: id_u differs only after a %d-byte common %s" % (n, lab))
+                run((b"u", va), (b"u", va, None), (b"u", vb, None), "collision: id_s differs only after a %d-byte common %s" % (n, lab))
+                run((b"u", va), (b"u", vb, None), (b"u", vb, None), "collision: id_s differs only after a %d-byte common %s" % (n, lab))
+                run((None, None), (None, None, va), (None, None, vb), "collision: ctx differs only after a %d-byte common %s" % (n, lab))
+                run((None, None), (None, None, va), (None, None, va), "agree: long ctx")
         # swapped / crossed identities
         run((b"U", b"V"), (b"V", b"U", None), (b"V", b"U", None), "collision: identities swapped, registration vs login")
         run((b"U", b"V"), (b"U", b"V", None), (b"V", b"U", None), "collision: identities swapped, client vs server")
